@@ -77,6 +77,21 @@ CHECKS = {
         "documented operand codes of both ISAs, corrupted asmbench structure, mnemonics already present in the target model.",
    design_ref="5/C20, 10.4", technique="TLA+ import state machine + TLC exhaustive on small files + replay through the CLI + batch trace validation",
    note="Both readings of 'within 5 %' are admitted, both outcomes exactly on a window edge; trusts file rendering, the YAML projection, the README operand-code table as transcribed in Decode."),
+
+ "C07": dict(
+   category="model_checking",
+   text="TLC exhaustive on MC_Lookup (entry scan TryEntry/DropSuffix/GiveUp; FoundIffSomeMatch, FirstMatchWins, NeverWrongKind, ResultAllowed against the declarative three-valued Match) over the complete operand-kind x kind table of both ISAs "
+        "(4 347 + 93 757 pairs) and all entry lists <= 2 (thorough <= 3: 1.2M + 0.68M states). Every initial state is emitted with its allowed result set and replayed on synthetic YAML models through get_instruction, assign_tp_lt and assign_src_dst "
+        "with operands produced by the real parsers; Trace_Lookup batch-validates seeded random models and every entry of every shipped model (thorough: all 14 491, with near-miss mutants) in file order read from the YAML text.",
+   design_ref="5/C07, 10.5", technique="TLA+ three-valued matching spec + entry-scan state machine; TLC exhaustive kind tables and entry lists, replay on synthetic models, batch trace validation of every shipped entry",
+   note="Trusts harness/lookup_common.py (kind <-> YAML / assembly text, projection of loaded entries, file order from the YAML text) and the get_instruction spy; ten open points of the statement are nondeterministic in the spec (Lookup.tla header)."),
+ "C08": dict(
+   category="model_checking",
+   text="TLC exhaustive on the kernel-level machine MC_Compose with the model's load/store tables as state: 32 table variants x kernels <= 2 (thorough: + kernels of 3 on 8 models) x 14 forms per ISA; invariants Inert, TablesUnchanged, UnknownIsZero, "
+        "UnknownIffNeither, ComposedDominates; a run with the former deviation InPlaceRowExtension must violate Inert and its counterexample kernel is replayed on the code. Every terminal state is replayed on rendered models through add_semantics; "
+        "Trace_Compose follows recorded kernels from random synthetic models and a curated vocabulary on shipped models with the tables as state.",
+   design_ref="5/C08, 10.5", technique="TLA+ composition spec with model tables as state + TLC exhaustive + replay on rendered models + batch trace validation",
+   note="Open points: untyped store rows (F13), the type of '*'-class register forms, AArch64 rmw through an indexed operand; on AArch64 composition is exercised almost only on synthetic models (real memory instructions have own entries)."),
  "C12": dict(
    category="model_checking",
    text="TLC enumerates every ordered pair of register names of both ISAs (MC_RegAlias: equivalence relation, family sizes), "
